@@ -298,6 +298,7 @@ func genStore(r *rng, o storeGenOpts) []sMetric {
 				}
 			}
 		}
+		var pendingRev []string
 		for j := 0; j < nl; j++ {
 			labels := make([]string, nk)
 			for q := range labels {
@@ -305,6 +306,9 @@ func genStore(r *rng, o storeGenOpts) []sMetric {
 				if o.noSeparator || o.cleanNames {
 					labels[q] = []string{"a", "v1", "v2", "b\\c", "\xc3\xa9", "q", "50%", "%v%s", "a%20b"}[r.intn(9)]
 				}
+			}
+			if pendingRev != nil {
+				labels, pendingRev = pendingRev, nil
 			}
 			if o.utf8Only {
 				for q := range labels {
@@ -317,6 +321,16 @@ func genStore(r *rng, o storeGenOpts) []sMetric {
 				continue
 			}
 			seenL[strings.Join(labels, "\x00")] = true
+			if nk >= 2 && j+1 < nl && r.chance(1, 2) {
+				// ... and the same values under the other keys: another label set altogether
+				rev := make([]string, nk)
+				for q := range labels {
+					rev[q] = labels[nk-1-q]
+				}
+				if !seenL[strings.Join(rev, "\x00")] {
+					pendingRev = rev
+				}
+			}
 			l := sLabelSet{labels: labels, tNs: int64(r.intn(2000000000)) * 1000003}
 			switch m.typ {
 			case metrics.Int:
